@@ -100,6 +100,11 @@ class MasterTruth:
         self.absent = {}          # server -> [tmin, tmax]: the master handled
         #                           a presence snapshot without the server
         #                           while its presence node was gone
+        self.seen_gone = set()    # servers the master held as down, looked
+        #                           at again (a presence snapshot listing
+        #                           them) and found without a presence node;
+        #                           forgotten with anything that touches the
+        #                           server's state or presence afterwards
         self.frozen = set()       # (informational)
         self.marks = {}           # app -> server it was explicitly marked on
         self.stored_state = None  # callable: server -> recorded state
@@ -265,6 +270,10 @@ class MasterTruth:
         /placement/<server>, which every state change is written to and which
         a restarted master restores): a model that believes a server is up
         while its own record says down or frozen has lost track of it."""
+        if sname in self.seen_gone:
+            # whatever a stale snapshot said: when the master looked, the
+            # server's presence node was gone, and it has not come back
+            return 'down'
         if self.stored_state is None:
             return None
         return self.stored_state(sname)
@@ -540,6 +549,7 @@ class World:
                 truth.groups[name] = data.get('count', 0)
         truth.view = set(zk.children(z.SERVER_PRESENCE) or [])
         truth.absent = {}
+        truth.seen_gone = set()
         truth.blacklist = list(self._zk_obj(z.BLACKEDOUT_APPS) or [])
         truth.admin_down = set()
         truth.frozen = set()
@@ -580,6 +590,15 @@ class World:
             for name in events or []:
                 if name in children and name in truth.srv:
                     self._truth_server(name)     # reloaded on coming up
+                    # ... and its state set by whether its presence node
+                    # exists NOW, not by the (possibly stale) snapshot
+                    if self.zk.nodes.get(
+                            z.path.server_presence(name)) is None:
+                        truth.seen_gone.add(name)
+            for name in sorted(truth.seen_gone):
+                if self.zk.nodes.get(
+                        z.path.server_presence(name)) is not None:
+                    truth.seen_gone.discard(name)
             for name in children:
                 truth.admin_down.discard(name)
             now = self.clock.peek()
@@ -628,6 +647,7 @@ class World:
                         else:
                             self.held_servers.discard(name)
                         truth.absent.pop(name, None)
+                        truth.seen_gone.discard(name)
                         parent = (self._zk_obj(z.path.server(name)) or
                                   {}).get('parent')
                         if parent in self.told_buckets:
@@ -638,6 +658,7 @@ class World:
                             self.untold_servers.add(name)
                 elif resource in ('cell', 'buckets'):
                     truth.absent.clear()
+                    truth.seen_gone.clear()
                     if resource == 'buckets':
                         self.told_buckets = set(
                             self.zk.children(z.BUCKETS) or [])
@@ -650,6 +671,7 @@ class World:
                         # bounds on when the server went down start afresh
                         truth.down.pop(name, None)
                         truth.absent.pop(name, None)
+                        truth.seen_gone.discard(name)
                         if name not in truth.srv:
                             continue
                         if state == 'down':
@@ -776,8 +798,10 @@ class World:
             self.truth.down.pop(name, None)
         if sname:
             self.truth.absent.pop(sname, None)
+            self.truth.seen_gone.discard(sname)
         else:
             self.truth.absent.clear()
+            self.truth.seen_gone.clear()
 
     def _guard(self, where, fn):
         try:
@@ -2363,6 +2387,33 @@ class Generator:
                 'disk': old.get('disk'), 'traits': traits,
                 'up_since': old.get('up_since')}
 
+    def g_stale_presence_snapshot(self, world):
+        """A server the master holds as down registers again, the watch
+        fires, and the server is gone again before the master gets to the
+        queued snapshot; instances are waiting for a place."""
+        names = [n for n in self._servers(world)
+                 if (world._zk_obj(z.path.server(n)) or {}).get('parent')]
+        if not names:
+            return None
+        name = self.rng.choice(names)
+        proid = self.rng.choice(self.config['proids'])
+        manifest = {'memory': '256M', 'cpu': '10%', 'disk': '256M',
+                    'affinity': '%s.job' % proid}
+        limits = self.config['aff_limits'].get(manifest['affinity'])
+        if limits:
+            manifest['affinity_limits'] = limits
+        self.follow.extend([
+            {'op': 'drain'}, {'op': 'master_cycle'},
+            {'op': 'presence_up', 'name': name},
+            {'op': 'snap', 'path': z.SERVER_PRESENCE},
+            {'op': 'presence_down', 'name': name},
+            {'op': 'app_create', 'app_id': '%s.job' % proid,
+             'manifest': manifest, 'count': self.rng.randint(3, 6)},
+            {'op': 'snap', 'path': z.SCHEDULED},
+            {'op': 'process'}, {'op': 'process'}, {'op': 'master_cycle'},
+            {'op': 'drain'}, {'op': 'master_cycle'}])
+        return {'op': 'presence_down', 'name': name}
+
     def g_stale_record_failover(self, world):
         """C11: an instance is deleted and the master fails over before it
         hears of it: the stale record is dropped, every other recorded
@@ -2762,7 +2813,7 @@ OP_WEIGHTS = [
     ('delete_then_apps_event', 3), ('move_partition', 3),
     ('lease_squeeze_failover', 3), ('flap_then_place', 5),
     ('resize_mixed', 3), ('frozen_then_presence_lost', 3),
-    ('trait_lost_then_place', 3),
+    ('trait_lost_then_place', 3), ('stale_presence_snapshot', 3),
 ]
 
 
